@@ -126,6 +126,10 @@ def make_jobs(ctx):
                          bounded="arbitrary byte strings of length <= %d handed to the section reader with any size within the buffer (all contents symbolic); allocation failure enabled" % n))
     jobs.append(ejob(ctx, "RD.name_bytes", "c10_reader.c", "h_name_bytes", ["reader.c:wasmReadName", "reader.c:wasmReadBytes"], defines=["NBYTES=%d" % n, "SECTION_FN=wasmReadStartSection"],
                      flags=["--unwind", str(n + 4), "--unwinding-assertions"] + NOUB, malloc_may_fail=True, bounded="arbitrary byte strings of length <= %d; allocation failure enabled" % n))
+    for nlen in (1, 2, 3):
+        jobs.append(ejob(ctx, "E.names_escape.len%d" % nlen, "e_names.c", "h_escape", ["c.c:wasmCWriteFileEscaped", "c.c:wasmCWriteStringEscaped"], defines=["NLEN=%d" % nlen],
+                         flags=["--unwind", "12", "--unwinding-assertions"], native_src=["array.c", "opcode.c", "instruction.c", "valuetype.c", "sha1.c", "export.c", "debug.c", "section.c"],
+                         bounded="names of %d bytes, every byte value symbolic (the escapers look at the current and the previous byte only)" % nlen))
     jobs.append(ejob(ctx, "RD.names_partial", "c10_reader.c", "h_names", ["reader.c:wasmFunctionNamesRemoveDuplicates"], flags=["--unwind", "8", "--unwinding-assertions"],
                      bounded="<= 3 functions, names <= 2 characters, any subset unnamed; qsort is an ENV model (insertion sort through the comparator)"))
     from . import c20
